@@ -75,7 +75,7 @@ theorem respelling_toDotted : Respelling (toDottedList []) := fun pre ms => by
 
 mutual
   theorem paths_respell (f : List SMod → List SMod) (pre : Path) : (c : SClass) → (c.respell f).paths pre = c.paths pre
-    | .mk name kind alias exts classes comps eqs => by
+    | .mk name kind alias exts classes comps eqs ieqs => by
       simp only [SClass.respell, SClass.paths]
       rw [pathsList_respell f (pre ++ [name]) classes]
   theorem pathsList_respell (f : List SMod → List SMod) (pre : Path) : (cs : List SClass) →
@@ -86,36 +86,70 @@ mutual
       rw [paths_respell f pre c, pathsList_respell f pre cs]
 end
 
-theorem elabComp_respell {f : List SMod → List SMod} (hf : Respelling f) (paths : List Path) (scope : Path) (k : SComp) :
-    elabComp paths scope (k.respell f) = elabComp paths scope k := by
+theorem name_respell (f : List SMod → List SMod) : (c : SClass) → (c.respell f).name = c.name
+  | .mk name kind alias exts classes comps eqs ieqs => by simp [SClass.respell, SClass.name]
+
+theorem ownOf_respell (f : List SMod → List SMod) (pre : Path) : (cs : List SClass) →
+    ownOf pre (respellList f cs) = ownOf pre cs
+  | [] => by simp [respellList, ownOf]
+  | c :: cs => by
+    have := ownOf_respell f pre cs
+    simp only [ownOf] at this ⊢
+    simp [respellList, name_respell, this]
+
+mutual
+  theorem index_respell (f : List SMod → List SMod) (pre : Path) : (c : SClass) → (c.respell f).index pre = c.index pre
+    | .mk name kind alias exts classes comps eqs ieqs => by
+      simp only [SClass.respell, SClass.index]
+      rw [indexList_respell f (pre ++ [name]) classes, ownOf_respell]
+      cases alias with
+      | none => simp [List.map_map, Function.comp_def, SExt.respell]
+      | some a => simp
+  theorem indexList_respell (f : List SMod → List SMod) (pre : Path) : (cs : List SClass) →
+      indexList pre (respellList f cs) = indexList pre cs
+    | [] => by simp [respellList, indexList]
+    | c :: cs => by
+      simp only [respellList, indexList]
+      rw [index_respell f pre c, indexList_respell f pre cs]
+end
+
+theorem elabComp_respell {f : List SMod → List SMod} (hf : Respelling f)
+    (res : Path → List Name → Bool → Except Err Ty) (scope : Path) (k : SComp) :
+    elabComp res scope (k.respell f) = elabComp res scope k := by
   simp [elabComp, SComp.respell, hf [] k.mods]
 
-theorem elabExt_respell {f : List SMod → List SMod} (hf : Respelling f) (paths : List Path) (scope : Path) (e : SExt) :
-    elabExt paths scope (e.respell f) = elabExt paths scope e := by
+theorem elabExt_respell {f : List SMod → List SMod} (hf : Respelling f)
+    (res : Path → List Name → Bool → Except Err Ty) (scope : Path) (e : SExt) :
+    elabExt res scope (e.respell f) = elabExt res scope e := by
   simp [elabExt, SExt.respell, hf [] e.mods]
 
 mutual
-  theorem elab_respell {f : List SMod → List SMod} (hf : Respelling f) (paths : List Path) (pre : Path) :
-      (c : SClass) → (c.respell f).elab paths pre = c.elab paths pre
-    | .mk name kind alias exts classes comps eqs => by
+  theorem elab_respell {f : List SMod → List SMod} (hf : Respelling f)
+      (res : Path → List Name → Bool → Except Err Ty) (pre : Path) :
+      (c : SClass) → (c.respell f).elab res pre = c.elab res pre
+    | .mk name kind alias exts classes comps eqs ieqs => by
       simp only [SClass.respell, SClass.elab]
-      rw [elabList_respell hf paths (pre ++ [name]) classes, mapE_map, mapE_map]
-      rw [mapE_congr _ _ exts (fun e _ => elabExt_respell hf paths (pre ++ [name]) e),
-          mapE_congr _ _ comps (fun k _ => elabComp_respell hf paths (pre ++ [name]) k)]
+      rw [elabList_respell hf res (pre ++ [name]) classes, mapE_map, mapE_map]
+      rw [mapE_congr _ _ exts (fun e _ => elabExt_respell hf res (pre ++ [name]) e),
+          mapE_congr _ _ comps (fun k _ => elabComp_respell hf res (pre ++ [name]) k)]
       cases alias with
       | none => rfl
       | some a => simp [hf [] a.2]
-  theorem elabList_respell {f : List SMod → List SMod} (hf : Respelling f) (paths : List Path) (pre : Path) :
-      (cs : List SClass) → elabList paths pre (respellList f cs) = elabList paths pre cs
+  theorem elabList_respell {f : List SMod → List SMod} (hf : Respelling f)
+      (res : Path → List Name → Bool → Except Err Ty) (pre : Path) :
+      (cs : List SClass) → elabList res pre (respellList f cs) = elabList res pre cs
     | [] => by simp [respellList, elabList]
     | c :: cs => by
       simp only [respellList, elabList]
-      rw [elab_respell hf paths pre c, elabList_respell hf paths pre cs]
+      rw [elab_respell hf res pre c, elabList_respell hf res pre cs]
 end
+
+theorem indexOf_respell (f : List SMod → List SMod) (src : SLib) : indexOf (respellList f src) = indexOf src := by
+  simp [indexOf, indexList_respell, ownOf_respell]
 
 theorem elabLib_respell {f : List SMod → List SMod} (hf : Respelling f) (src : SLib) :
     elabLib (respellList f src) = elabLib src := by
-  simp [elabLib, pathsList_respell, elabList_respell hf]
+  simp [elabLib, pathsList_respell, elabList_respell hf, indexOf_respell, defaultFuel]
 
 theorem flattenSrc_respell {f : List SMod → List SMod} (hf : Respelling f) (src : SLib) (target : Path) :
     flattenSrc (respellList f src) target = flattenSrc src target := by
@@ -125,49 +159,61 @@ end PymocaVerif.Flatten
 
 namespace PymocaVerif.Flatten
 
-theorem findScope_spec {paths : List Path} {h : Name} {scope : Path} {i : Nat} {s : Path}
-    (hf : findScope paths h scope i = some s) :
-    ∃ j, j ≤ i ∧ s = scope.take j ∧ s ++ [h] ∈ paths ∧
-      ∀ j', j < j' → j' ≤ i → scope.take j' ++ [h] ∉ paths := by
+theorem findLevel_spec {vis : Path → Except Err (List (Name × Path))} {own : Path → List (Name × Path)}
+    {scope : Path} {oo : Bool} {h : Name} {i : Nat} {b : Path}
+    (hf : findLevel vis own scope oo h i = .ok (some b)) :
+    ∃ j cs, j ≤ i ∧ levelCands vis own scope oo j = .ok cs ∧ cs.lookup h = some b ∧
+      ∀ j', j < j' → j' ≤ i → ∃ cs', levelCands vis own scope oo j' = .ok cs' ∧ cs'.lookup h = none := by
   induction i with
   | zero =>
-    simp only [findScope] at hf
+    simp only [findLevel] at hf
     split at hf
-    · rename_i hc
-      cases hf
-      exact ⟨0, Nat.le_refl _, rfl, by simpa using hc, fun j' h1 h2 => by omega⟩
     · cases hf
+    · rename_i cs hcs
+      have hl : cs.lookup h = some b := by
+        injection hf
+      exact ⟨0, cs, Nat.le_refl _, hcs, hl, fun j' h1 h2 => by omega⟩
   | succ i ih =>
-    simp only [findScope] at hf
+    simp only [findLevel] at hf
     split at hf
-    · rename_i hc
-      cases hf
-      exact ⟨i + 1, Nat.le_refl _, rfl, by simpa using hc, fun j' h1 h2 => by omega⟩
-    · rename_i hc
-      obtain ⟨j, hj, hs, hin, hno⟩ := ih hf
-      refine ⟨j, by omega, hs, hin, ?_⟩
-      intro j' h1 h2
-      by_cases hj' : j' = i + 1
-      · subst hj'; simpa using hc
-      · exact hno j' h1 (by omega)
+    · cases hf
+    · rename_i cs hcs
+      split at hf
+      · rename_i b' hl
+        cases hf
+        exact ⟨i + 1, cs, Nat.le_refl _, hcs, hl, fun j' h1 h2 => by omega⟩
+      · rename_i hl
+        obtain ⟨j, cs0, hj, hc0, hl0, hno⟩ := ih hf
+        refine ⟨j, cs0, by omega, hc0, hl0, ?_⟩
+        intro j' h1 h2
+        by_cases hj' : j' = i + 1
+        · subst hj'; exact ⟨cs, hcs, hl⟩
+        · exact hno j' h1 (by omega)
 
-/-- Lexical lookup: a successful lookup of `h :: t` from `scope` yields the class `s ++ h :: t`
-    where `s` is the innermost enclosing scope (a prefix of `scope`) declaring a class `h`. -/
-theorem resolveRef_lexical {paths : List Path} {scope : Path} {h : Name} {t : List Name} {p : Path}
-    (hr : resolveRef paths scope (h :: t) = .ok (.cls p)) :
-    ∃ j, j ≤ scope.length ∧ p = scope.take j ++ h :: t ∧ p ∈ paths ∧ scope.take j ++ [h] ∈ paths ∧
-      ∀ j', j < j' → j' ≤ scope.length → scope.take j' ++ [h] ∉ paths := by
-  simp only [resolveRef] at hr
+/-- Lookup: a successful lookup of `h :: t` from the class `scope` finds `h` among the candidates of
+    the innermost level `j` (class `scope.take j`; candidates = the classes visible there, or only
+    its own local classes when `oo` and `j` is the class itself) that has a class of that name, and
+    then walks `t` through the visible classes of the classes found. -/
+theorem resolveWith_spec {vis : Path → Except Err (List (Name × Path))} {own : Path → List (Name × Path)}
+    {scope : Path} {oo : Bool} {h : Name} {t : List Name} {p : Path}
+    (hr : resolveWith vis own scope (h :: t) oo = .ok (.cls p)) :
+    ∃ j cs b, j ≤ scope.length ∧ levelCands vis own scope oo j = .ok cs ∧ cs.lookup h = some b ∧
+      (∀ j', j < j' → j' ≤ scope.length →
+        ∃ cs', levelCands vis own scope oo j' = .ok cs' ∧ cs'.lookup h = none) ∧
+      descend vis b t = .ok (some p) := by
+  simp only [resolveWith] at hr
   split at hr
   · split at hr <;> cases hr
   · split at hr
     · cases hr
-    · rename_i s hs
+    · cases hr
+    · rename_i b hb
       split at hr
-      · rename_i hc
-        cases hr
-        obtain ⟨j, hj, rfl, hin, hno⟩ := findScope_spec hs
-        exact ⟨j, hj, rfl, by simpa using hc, hin, hno⟩
       · cases hr
+      · cases hr
+      · rename_i p' hd
+        cases hr
+        obtain ⟨j, cs, hj, hc, hl, hno⟩ := findLevel_spec hb
+        exact ⟨j, cs, b, hj, hc, hl, hno, hd⟩
 
 end PymocaVerif.Flatten
